@@ -111,6 +111,42 @@ NEG_PLANS = [
 ]
 
 
+def neg_product():
+    """(reply type x status) as a full product for BOTH negotiation messages: {the expected response, ErrorMessage, another type} x
+    {Success, VersionUnsupported 110, 101, another error} (+ the (current, max) shapes of a successful GetSupportedVersionResponse).
+    The outcome is computed from the rule, not listed: negotiation is complete only after an expected-type Success — a
+    GetSupportedVersionResponse whose current version is the settled one, or a SetProtocolVersionResponse — plus ErrorMessage with
+    VersionUnsupported answering GetSupportedVersion (a 1.0.1 reader). Everything else fails setup — an ErrorMessage carrying
+    Success included (for both messages; /repo 6e714d1 made the code strict for GetSupportedVersion too)."""
+    STAT = (0, 110, 101, 100)
+    gsv = []          # (name, rtyp, payload, result: done | spv | fail)
+    for cur, mx in ((2, 2), (1, 2), (1, 1), (2, 1), (3, 3), (3, 2)):
+        v = min(2, mx)
+        gsv.append(("gsvr%d%d" % (cur, mx), cc.T_GSVR, dict(k="gsvr", cur=cur, max=mx, status=0), "done" if cur == v else "spv"))
+    for st in STAT[1:]:
+        gsv.append(("gsvr12-st%d" % st, cc.T_GSVR, dict(k="gsvr", cur=1, max=2, status=st), "fail"))
+    for st in STAT:
+        gsv.append(("gsv-errmsg%d" % st, cc.T_ERR, dict(k="status", code=st), "done" if st == 110 else "fail"))
+        gsv.append(("gsv-spvr%d" % st, cc.T_SPVR, dict(k="status", code=st), "fail"))
+        gsv.append(("gsv-typ11-%d" % st, 11, dict(k="status", code=st), "fail"))
+    spv = []
+    for st in STAT:
+        spv.append(("spvr%d" % st, cc.T_SPVR, dict(k="status", code=st), "done" if st == 0 else "fail"))
+        spv.append(("spv-errmsg%d" % st, cc.T_ERR, dict(k="status", code=st), "fail"))
+        spv.append(("spv-gsvr%d" % st, cc.T_GSVR, dict(k="gsvr", cur=2, max=2, status=st), "fail"))
+        spv.append(("spv-typ13-%d" % st, 13, dict(k="status", code=st), "fail"))
+    plans = []
+    for name, rtyp, pl, res in gsv:
+        if res != "spv":
+            plans.append((name, [(rtyp, pl)], "ok" if res == "done" else "fail"))
+    to_spv = [g for g in gsv if g[3] == "spv"]
+    for i, (sname, rtyp, pl, res) in enumerate(spv):
+        leads = to_spv if pl.get("code", pl.get("status")) == 0 else [to_spv[(i + i // 4) % len(to_spv)]]     # Success answers: after every lead
+        for g in leads:
+            plans.append(("%s+%s" % (g[0], sname), [(g[1], g[2]), (rtyp, pl)], "ok" if res == "done" else "fail"))
+    return plans
+
+
 def tail(b, rnd, good, plan=None, early_at=(), neg_caller=None, more=True):
     """what follows the first message. early_at: positions at which an early caller is started
     ('neg0' = before the GetSupportedVersion reply, 'neg1' = before the SetProtocolVersion reply)."""
@@ -471,6 +507,33 @@ def gen_scripts(seed, thorough, seed_round=0):
                         b.add(op="peer_send", typ=f["typ"], id=f.get("id", 0), ver=version, pl=f.get("pl"))
                         tail(b, rnd, good, plan=plan if version == 2 else None, early_at=["neg0"] if pos == "neg0" else [], neg_caller=mk, more=(typ != 14))
                         add(b, "early-types")
+    # K. every (reply type x status) answer to GetSupportedVersion and to SetProtocolVersion (neg_product) x an early caller of every
+    #    kind at every position: the gate opens only after an expected-type Success; any other answer fails setup and the caller
+    n = 0
+    for plan in neg_product():
+        for pos in ("pre", "gate", "neg0", "neg1"):
+            if pos == "neg1" and len(plan[1]) < 2:
+                continue
+            n += 1
+            if not thorough and len(plan[1]) < 2 and (n + seed_round) % 2:
+                continue
+            kind = ("SendMessage", "SendNoWait", "SendFor", "Shutdown")[(n + seed_round) % 4]
+            if kind == "Shutdown" and plan[2] == "ok":
+                kind = "SendMessage"            # (a completed Shutdown ends the session: family I)
+            b = B("c08-neg-%s-%s-%s" % (plan[0], pos, kind), 2)
+            mk = (lambda: b.shutdown()) if kind == "Shutdown" else (lambda: b.caller(rnd, api=None if kind == "SendMessage" else kind))
+            if pos == "pre":
+                b.new_client()
+                b.early.append(mk())
+                b.wait(b.early[-1])
+            b.start(no_first=True)
+            b.probe()
+            if pos == "gate":
+                b.early.append(mk())
+                b.probe()
+            b.add(op="peer_send", typ=cx.T_REN, id=0, ver=2, pl=dict(k="conn", status=0))
+            tail(b, rnd, True, plan=plan, early_at=[pos] if pos.startswith("neg") else [], neg_caller=mk)
+            add(b, "negotiation-replies")
     return out
 
 
@@ -657,7 +720,27 @@ def run(tier, seed, replay=None):
     if halves and len(samples) < 7:
         samples.append(dict(half_close=halves[0], observed=hobs[0]))
 
+    # model-based random walks (checks/client_walk.py, client-core's generator: any operation of the runner wherever the model says it
+    # is executable) with the C08 predicate on Go's observation + the Go/model comparison
+    walk_ev = {}
+    if not replay:
+        import client_walk as cw
+        wscripts, wstats, wcalls = cw.walks(seed + 108, 3000 if thorough else 300, cw.WEIGHTS[PID], prefix="c08-walk")
+        wcls = dict((sc["id"], c) for sc, c in zip(wscripts, cx.classify_first(wscripts)))
+
+        def wpred(sc, g):
+            if not cx.walk_c08_applicable(sc):
+                return []
+            return cx.pred_c08(sc, g, wcls.get(sc["id"]) or cx.classify_first([sc])[0], walk=True)
+        winfo = cx.run_walks(res, PID, exe, wscripts, wpred, reported)
+        walk_ev = cw.evidence(wstats, wscripts, wcalls)
+        walk_ev.update(judged_by_predicate=sum(1 for sc in wscripts if cx.walk_c08_applicable(sc)), result=winfo)
+        evals += len(wscripts)
+        dist["walk"] = len(wscripts)
+        nontriv.update(("walk", json.dumps(sc["steps"], sort_keys=True)) for sc in wscripts)
+
     res.coverage.update(
+        walks=walk_ev,
         timed_scenarios=len(timed), half_close_scenarios=len(halves),
         evaluations=evals, distinct_nontrivial=len(nontriv),
         rule="a case is one script run on the real Client (and, unless several callers are released at once, on the model); distinct by "
